@@ -72,14 +72,17 @@ impl Condition<P> for TrigConst {
 }
 #[derive(Clone, Serialize)]
 pub struct TrigScripted {
+    /// the script that stays silent at first
+    late: bool,
     #[serde(skip)]
     pos: Arc<Mutex<usize>>,
 }
 const TRIG_SCRIPT: [bool; 5] = [true, false, true, true, false];
+const LATE_SCRIPT: [bool; 5] = [false, true, false, true, true];
 impl Condition<P> for TrigScripted {
     fn evaluate(&self, _: &P, _: &mut State<P>) -> ExecResult<bool> {
         let mut p = self.pos.lock().unwrap();
-        let b = TRIG_SCRIPT.get(*p).copied().unwrap_or(false);
+        let b = if self.late { LATE_SCRIPT } else { TRIG_SCRIPT }.get(*p).copied().unwrap_or(false);
         *p += 1;
         Ok(b)
     }
@@ -461,7 +464,8 @@ fn run_case(out: &mut Out, run: u64, case: &Value) {
                 "always" => Box::new(TrigConst(true)),
                 "never" => Box::new(TrigConst(false)),
                 "every2" => EveryN::iterations(2),
-                "scripted" => Box::new(TrigScripted { pos: Arc::new(Mutex::new(0)) }),
+                "scripted" => Box::new(TrigScripted { late: false, pos: Arc::new(Mutex::new(0)) }),
+                "late" => Box::new(TrigScripted { late: true, pos: Arc::new(Mutex::new(0)) }),
                 other => panic!("unknown trigger kind {other}"),
             };
             let srcs: Vec<&str> = r["srcs"].as_array().unwrap().iter().map(|x| x.as_str().unwrap()).collect();
@@ -613,7 +617,7 @@ pub fn main(args: &Args) -> usize {
                             const SRCS: [&str; 9] = ["K0", "U", "IT", "MISSING", "PG", "BV", "EV", "PI", "PE"];
                             let via = ["with", "with", "auto", "many", "common"][rng.gen_range(0..5)];
                             // one trigger object serves several rules of with_many / with_common: stateless kinds only
-                            let tk = ["always", "never", "every2", "scripted"][rng.gen_range(0..if via == "many" || via == "common" { 3 } else { 4 })];
+                            let tk = ["always", "never", "every2", "scripted", "late"][rng.gen_range(0..if via == "many" || via == "common" { 3 } else { 5 })];
                             let srcs: Vec<&str> = match via {
                                 "with" => vec![SRCS[rng.gen_range(0..9)]],
                                 "auto" => vec![["K0", "U", "IT", "MISSING", "PG", "EV", "PI", "PE"][rng.gen_range(0..8)]],
